@@ -237,7 +237,8 @@ class G:
                     # ROW_NUMBER numbers tied rows in an engine-chosen order: make the window order total (unique key of every
                     # source), or fall back to RANK (deterministic under ties) where a source has no key
                     if all(s_["k"] == "table" for s_ in srcs):
-                        worder += [[{"k": "col", "src": s_["alias"] or s_["t"], "name": "id"}, "ASC"] for s_ in srcs]
+                        iddir = r.choice(["ASC", worder[0][1]])
+                        worder += [[{"k": "col", "src": s_["alias"] or s_["t"], "name": "id"}, iddir] for s_ in srcs]
                     else:
                         wn = "RANK"
                 # (aliased: the partition/order keys handed to the builder carry aliases of their own, as when one aliased
@@ -245,12 +246,13 @@ class G:
                 frame = None
                 if wn in ("SUM", "COUNT") and all(s_["k"] == "table" for s_ in srcs) and r.random() < 0.6:
                     # a ROWS frame needs a total window order to be deterministic: unique key of every source appended
-                    worder = worder + [[{"k": "col", "src": s_["alias"] or s_["t"], "name": "id"}, "ASC"] for s_ in srcs]
+                    iddir = r.choice(["ASC", worder[0][1]])
+                    worder = worder + [[{"k": "col", "src": s_["alias"] or s_["t"], "name": "id"}, iddir] for s_ in srcs]
                     lo = r.choice([["P", None], ["P", 0], ["P", 1], ["P", 2], ["C"]])
                     hi = r.choice([["F", None], ["F", 0], ["F", 1], ["C"], None])
                     frame = ["ROWS", lo, hi]
                 sel.append({"e": {"k": "win", "n": wn, "a": self.col(srcs, "int"), "frame": frame,
-                                  "part": part, "order": worder, "aliased": r.random() < 0.4}, "as": self.alias("w"), "window": True})
+                                  "part": part, "order": worder, "aliased": r.random() < 0.4, "one_call": r.random() < 0.6}, "as": self.alias("w"), "window": True})
         q = {"k": "select", "from": [srcs[0]] + extra_from, "joins": joins, "select": sel, "distinct": (not grouped) and r.random() < 0.15,
              "where": self.crit(srcs, 2) if r.random() < 0.6 else None, "group": group,
              "having": ({"k": "cmp", "o": r.choice([">", ">=", "<"]), "l": {"k": "agg", "n": "COUNT", "a": {"k": "const", "v": 1}, "distinct": False},
@@ -564,8 +566,16 @@ class PB:
             f = r["an." + n]() if e["n"] in ("ROW_NUMBER", "RANK") else r["an." + n](self.expr(e["a"], q, sel))
             al = (lambda t, i: t.as_("wk%d" % i)) if e.get("aliased") else (lambda t, i: t)
             f = f.over(*[al(self.expr(p, q, sel), i) for i, p in enumerate(e["part"])])
+            # consecutive keys of one direction go into ONE orderby(k1, k2, .., order=dir) call (every second window), else one call each
+            runs = []
             for i, (o, d) in enumerate(e["order"]):
-                f = f.orderby(al(self.expr(o, q, sel), 5 + i), order=r["Order"].asc if d == "ASC" else r["Order"].desc)
+                term_ = al(self.expr(o, q, sel), 5 + i)
+                if runs and runs[-1][0] == d and e.get("one_call"):
+                    runs[-1][1].append(term_)
+                else:
+                    runs.append([d, [term_]])
+            for d, terms_ in runs:
+                f = f.orderby(*terms_, order=r["Order"].asc if d == "ASC" else r["Order"].desc)
             if e.get("frame"):
                 def edge(x):
                     if x[0] == "C":
